@@ -323,6 +323,9 @@ func (c *concRun) oracle(hist []event, stub []cw.LogLine) {
 		init.ver[i] = 1
 		init.deps[i] = r.Deps[i]
 		init.untracked[i] = r.Untracked[i]
+		if i < len(r.SelfSkip) {
+			init.selfSkip[i] = r.SelfSkip[i]
+		}
 	}
 	type wpoint struct {
 		seq uint64
@@ -373,7 +376,7 @@ func (c *concRun) oracle(hist []event, stub []cw.LogLine) {
 		switch w.kind {
 		case "bump":
 			if w.pkg == p {
-				return true
+				return !(p < len(r.SelfSkip) && r.SelfSkip[p])
 			}
 			for _, d := range r.Deps[p] {
 				if d == w.pkg && !r.Untracked[d] {
